@@ -170,6 +170,13 @@ func (b *backend) List(ctx context.Context, r *proto.RangeRequest) (resp *proto.
 		kvs = kvs[0:r.Limit]
 	}
 	resp.Kvs = kvs
+	for _, kv := range kvs {
+		// a request may name a revision ahead of the committed one: like Get, never
+		// report a header revision smaller than the data returned
+		if kv.Revision > resp.Header.Revision {
+			resp.Header.Revision = kv.Revision
+		}
+	}
 	return resp, nil
 }
 
